@@ -155,6 +155,13 @@ Theorem predecessor_before : forall (n o : name) (prefix_ok : bool) (s : name),
 Proof. exact NameSucc.predecessor_before_abs. Qed.
 Print Assumptions predecessor_before.
 
+(* and it always returns for a name of the zone (the padding stays within the 63/255 limits) *)
+Theorem predecessor_exists : forall (n o : name) (prefix_ok : bool),
+  Valid n -> Valid o -> is_absolute o = true -> is_subdomain n o = true ->
+  exists s, absolute_predecessor n o prefix_ok = Ok s.
+Proof. exact NameSucc.absolute_predecessor_total. Qed.
+Print Assumptions predecessor_exists.
+
 Theorem predecessor_before_relative : forall (n o : name) (prefix_ok : bool) (s : name),
   Valid n -> Valid o -> is_absolute n = false -> n <> [] ->
   predecessor n o prefix_ok = Ok s ->
